@@ -39,7 +39,8 @@ _G = {'root': None, 'events': [], 'installed': False}
 
 def plan(tier, seed):
     return [{'id': 'c12-%d' % i, 'seed': '%s/C12/%d' % (seed, i),
-             'compiled': tier == 'thorough' or i % 4 == 0} for i in range(SIZES[tier])]
+             'compiled': tier == 'thorough' or i % 4 == 0, 'venv_in_project': i % 3 == 1}
+            for i in range(SIZES[tier])]
 
 
 def _audit(event, args):
@@ -272,6 +273,8 @@ def check_after(rec, sentinel_dir, root, w, helper_log_pos):
                 parts = line.rstrip('\n').split('\t')
                 if len(parts) < 3 or root not in parts[2]:
                     continue
+                if (os.path.join(root, '.venv') + os.sep) in parts[2]:
+                    continue   # the environment's own files (a virtualenv kept inside the project)
                 if parts[1] == 'compile':
                     # compiling is neither importing nor executing (zipimport compiles the
                     # source of a module it locates): recorded, not charged
@@ -321,6 +324,18 @@ def run(spec):
         ('added', dict(added_sys_path=[root, os.path.join(root, 'lib.zip')])),
         ('nosmart', dict(smart_sys_path=False, added_sys_path=[root, os.path.join(root, 'lib.zip')])),
     ]
+    if spec.get('venv_in_project'):
+        # the project keeps its virtualenv inside the project directory and jedi is told to use it:
+        # every sys.path entry of that environment then starts with the project path
+        import subprocess
+        venv = os.path.join(root, '.venv')
+        r = subprocess.run([sys.executable, '-m', 'venv', '--without-pip', '--symlinks', venv],
+                           capture_output=True, text=True, timeout=120)
+        if r.returncode == 0:
+            configs.append(('venv_in_project', dict(environment_path=venv)))
+            rec.ev('c12:venv_in_project_configs')
+        else:
+            rec.ev('c12:venv_creation_failed')
     locs = [os.path.join(root, 'buffer.py'), os.path.join(root, 'pkg', 'buffer.py'),
             os.path.join(root, 'test_buffer.py')]
     helper_before = env._get_subprocess()._send(None, verif_probe.snapshot)
